@@ -58,7 +58,7 @@ NoU == [kind |-> "none", chart |-> "none", replace |-> FALSE, atomic |-> FALSE, 
 
 NoOp == [u |-> NoU,
          keep |-> FALSE, nohooks |-> FALSE, ver |-> 0, lim |-> 0, cleanup |-> FALSE,
-         new |-> 0, orig |-> 0, tgt |-> 0, newrec |-> NoRec,
+         new |-> 0, orig |-> 0, tgt |-> 0, newrec |-> NoRec, lastRev |-> 0, lastSt |-> "",
          curman |-> <<>>, tgtman |-> <<>>, hdefs |-> <<>>, adopted |-> {}, k3 |-> FALSE,
          todo |-> {}, tseq |-> <<>>, dseq |-> <<>>, hrevs |-> {},
          created |-> {}, posted |-> {}, crs |-> {}, log |-> <<>>, uerr |-> FALSE, errs |-> FALSE,
@@ -225,13 +225,15 @@ UOwnNext(o) ==
   IF Len(o.tseq) <= 1 THEN UOwnDone([o EXCEPT !.tseq = <<>>])
   ELSE [pc |-> "U_Own", op |-> [o EXCEPT !.tseq = Tail(@)]]
 
-UPrepared(o, orig) ==
+\* lastRev: the revision Releases.Last returned (the new revision number is computed from THAT object,
+\* not from the ledger as it is now: another process may have written in between)
+UPrepared(o, orig, lastRev) ==
   LET tgt == ChartMan(o.u.chart)
       cur == store[orig].man
       tbc == SelectSeq(ManOrder(tgt), LAMBDA r : r \notin DOMAIN cur \/ ~SameKey(cur[r], tgt[r]))
-      o1 == [o EXCEPT !.orig = orig, !.origSt = store[orig].st, !.new = Last + 1,
+      o1 == [o EXCEPT !.orig = orig, !.origSt = store[orig].st, !.new = lastRev + 1,
                       !.tgtman = tgt, !.curman = cur, !.tseq = tbc, !.adopted = {}] IN
-  IF Last = MaxRev THEN Done(o, "err")
+  IF lastRev = MaxRev THEN Done(o, "err")
   ELSE IF tbc = <<>> THEN UOwnDone(o1) ELSE [pc |-> "U_Own", op |-> o1]
 
 UAfterFailRec(o) ==
@@ -281,6 +283,10 @@ Go(p, t) ==
                                           !.log = IF KeepLog THEN Append(@, last') ELSE @]]
   /\ hist' = IF LogSched THEN Append(hist, [step |-> "c", p |-> p]) ELSE hist
 
+\* index in hist of the running operation of process p
+OpIdx(p) == CHOOSE i \in DOMAIN hist : /\ hist[i].step = "op" /\ hist[i].p = p
+                                       /\ \A j \in DOMAIN hist : (j > i /\ hist[j].step = "op") => hist[j].p # p
+
 \* same, and the fault plan hit this call (class cls)
 GoF(p, t, cls) ==
   LET r == Resolve(t) IN
@@ -288,7 +294,8 @@ GoF(p, t, cls) ==
   /\ op' = [op EXCEPT ![p] = [r.op EXCEPT !.n = op[p].n + 1, !.faultAt = op[p].n + 1, !.flt = @ \cup {cls},
                                           !.fsub = @ \/ (op[p].sub /\ cls # "store"),
                                           !.log = IF KeepLog THEN Append(@, last') ELSE @]]
-  /\ hist' = [hist EXCEPT ![Len(hist)].fault = op[p].n + 1, ![Len(hist)].flab = last']
+  /\ hist' = LET h == [hist EXCEPT ![OpIdx(p)].fault = op[p].n + 1, ![OpIdx(p)].flab = last'] IN
+              IF LogSched THEN Append(h, [step |-> "c", p |-> p]) ELSE h
 
 CanInj(p, cls) ==
   /\ cls \in FaultKinds /\ nfaults < MaxFaults
@@ -655,16 +662,16 @@ U_Last(p) ==
      StoreRead(p, "query", "history", Used # {},
        IF Used = {} THEN Done(o, "err")
        ELSE IF IsPending(store[Last].st) THEN Done(o, "err")                  \* errPending
-       ELSE IF store[Last].st = "deployed" THEN UPrepared(o, Last)
-       ELSE [pc |-> "U_Deployed", op |-> o])
+       ELSE IF store[Last].st = "deployed" THEN UPrepared(o, Last, Last)
+       ELSE [pc |-> "U_Deployed", op |-> [o EXCEPT !.lastRev = Last, !.lastSt = store[Last].st]])
 
 U_Deployed(p) ==
   /\ pc[p] = "U_Deployed" /\ Budgets
   /\ LET o == op[p] IN
      StoreRead(p, "query", "status=deployed", Deployed # {},
-       IF Used = {} THEN Done(o, "err")
-       ELSE IF Deployed # {} THEN UPrepared(o, MaxOf(Deployed))
-       ELSE IF store[Last].st \in {"failed", "superseded"} THEN UPrepared(o, Last)
+       IF Deployed # {} THEN UPrepared(o, MaxOf(Deployed), o.lastRev)
+       ELSE IF o.lastSt \in {"failed", "superseded"} /\ store[o.lastRev].st # "none"
+            THEN UPrepared(o, o.lastRev, o.lastRev)            \* currentRelease = the cached lastRelease
        ELSE Done(o, "err"))
 
 U_Own(p) ==
@@ -767,7 +774,11 @@ R_GetTgt(p) ==
 R_Create(p) ==
   /\ pc[p] = "R_Create" /\ Budgets
   /\ LET o == op[p]
-         o1 == [o EXCEPT !.memSt = "pending-rollback", !.created = {}, !.crs = @ \cup {o.new}]
+         \* the rollback of a failed upgrade --atomic creates its record without any check of the ledger: an
+         \* upgrade that started while the last revision read "failed" runs side by side with it (finding L22)
+         racing == o.ret = "atomicUpgrade" /\ \E q \in Procs : q # p /\ pc[q] \notin {"idle"}
+         o1 == [o EXCEPT !.memSt = "pending-rollback", !.created = {}, !.crs = @ \cup {o.new},
+                         !.kf = IF racing THEN @ \cup {"L22"} ELSE @]
          okT == EnterHooks(o1, "pre-rollback", o.new, o.newrec.hooks, "R_Apply", "R_HookFail") IN
      StoreWrite(p, "create", o.new, store[o.new].st = "none", [store EXCEPT ![o.new] = o.newrec],
                 okT, REnd(o, "err"), REnd(o, "err"))
@@ -875,7 +886,7 @@ Crash(p) ==
   /\ pc' = [pc EXCEPT ![p] = "idle"]
   /\ op' = [op EXCEPT ![p] = NoOp]
   /\ last' = Lab(p, "crash", op[p].u.kind, "", "", FALSE, FALSE)
-  /\ hist' = [hist EXCEPT ![Len(hist)].crash = op[p].n + 1]
+  /\ hist' = [hist EXCEPT ![OpIdx(p)].crash = op[p].n + 1]
   /\ pre' = [pre EXCEPT ![p] = [store |-> <<>>, cluster |-> <<>>]]
   /\ kfg' = kfg \cup op[p].kf
   /\ UNCHANGED <<store, cluster, nops, nfaults, nedits>>
